@@ -42,7 +42,9 @@ REP = [("A", 0x41), ("V", 0x56), ("T", 0x54), ("a", 0x61), ("o", 0x6F), ("period
        ("A.alt", None), ("V.sc", None), ("dash.case", None),
        ("ge-cy", 0x433), ("te-cy", 0x442), ("Gamma", 0x393), ("Tau", 0x3A4), ("comma", 0x2C),
        # glyphs of the Arabic script without a strong bidi class (ET / ON): kerned among themselves they are still right-to-left
-       ("percent-ar", 0x66A), ("perthousand-ar", 0x609), ("poeticverse-ar", 0x60E)]
+       ("percent-ar", 0x66A), ("perthousand-ar", 0x609), ("poeticverse-ar", 0x60E),
+       # characters whose only script is Inherited (Zinh, no script extensions): common for kerning, on either side of a pair
+       ("lowlinecomb", 0x332), ("zwj", 0x200D)]
 MULTI_LTR = ["A", "V", "T", "a-cy", "be-cy", "ge-cy", "te-cy", "alpha", "Gamma", "Tau", "period", "comma", "hyphen"]
 VALUES = [Fr(-50), Fr(-51, 2), Fr(10), Fr(0), Fr(29, 4), Fr(-3), Fr(12), Fr(-75), Fr(5, 2)]
 
@@ -60,11 +62,20 @@ def gen(rng):
         n = rng.randint(9, 13)
     elif fam < 0.7:    # RTL heavy
         pool = [r for r in REP if r[0] in ("alef-ar", "beh-ar", "one-ar", "alef-hb", "bet-hb", "period", "hyphen", "one", "A", "acutecomb",
-                                            "percent-ar", "perthousand-ar", "poeticverse-ar")]
+                                            "percent-ar", "perthousand-ar", "poeticverse-ar", "lowlinecomb", "zwj")]
     else:
         pool = list(REP)
     items = rng.sample(pool, min(n, len(pool)))
     names = [x[0] for x in items]
+    forced = []
+    if 0.5 <= fam < 0.7:
+        # always: a right-to-left letter kerned against an Inherited-script glyph on the SECOND side and on the first side
+        rtl = [x for x in names if x in ("alef-ar", "beh-ar", "alef-hb", "bet-hb")]
+        if rtl:
+            for extra in ("lowlinecomb", "zwj"):
+                if extra not in names:
+                    items.append(next(r for r in REP if r[0] == extra)); names.append(extra)
+            forced = [((rtl[0], "lowlinecomb"), Fr(-30)), (("zwj", rtl[-1]), Fr(-20))]
     groups = {}
     for side in ("1", "2"):
         avail = list(names)
@@ -88,6 +99,8 @@ def gen(rng):
         s1 = rng.choice(g1) if g1 and rng.random() < 0.5 else rng.choice(names + ["ghost"] * (rng.random() < 0.05))
         s2 = rng.choice(g2) if g2 and rng.random() < 0.5 else rng.choice(names)
         kerning[(s1, s2)] = rng.choice(VALUES)
+    for k, v in forced:
+        kerning.setdefault(k, v)
     # exceptions for existing group entries
     for (s1, s2), v in list(kerning.items()):
         if rng.random() < 0.4:
